@@ -70,6 +70,7 @@ func errResult(e *Event) *Term {
 }
 
 func runC18(c *Ctx) {
+	defer checkFactoriesWireCollaborators(c, "C18.R11")
 	defer checkCanHandleExact(c, "C18.R10")
 	defer checkSessionCloneDeep(c, "C18.R9")
 	c18R1(c)
